@@ -346,6 +346,10 @@ func corpus() []*Case {
 				s.setCode(s.B, new(prog).etx(a).op("stop"))
 				s.setCode(s.A, new(prog).call(addrWord(s.B), big.NewInt(0), big.NewInt(500000)).op("stop"))
 			})
+			add("recursive self-call until the gas runs out, one ETX per level", func(s *scen) {
+				s.setCode(s.A, new(prog).etx(s.defaultEtx()).op("pop").call(addrWord(s.A), big.NewInt(0), max256).op("stop"))
+				s.c.Gas = 1500000
+			})
 			// --- top-level CreateETX
 			add("top-level call to a foreign eligible address", func(s *scen) {
 				s.c.To, s.c.Value, s.c.Gas = s.fQuai[1], "1000", 50000
@@ -380,8 +384,14 @@ func corpus() []*Case {
 	}
 	// conversions on both sides of the controller kick-in and of the two hold intervals
 	for _, ptn := range forkBoundaries() {
-		s := newScen([2]int{0, 0}, ptn, "fork boundary: CONVERT opcode and top-level conversion")
-		s.setCode(s.A, new(prog).convert(addrWord(s.inQi), params.MinQuaiConversionAmount, big.NewInt(21000)).etx(s.defaultEtx()).op("stop"))
+		s := newScen([2]int{0, 0}, ptn, "fork boundary: CONVERT and ETX opcodes, plain and with wrapping amounts")
+		wrapE := s.defaultEtx()
+		wrapE.value = max256
+		bigG := s.defaultEtx()
+		bigG.gl, bigG.tip, bigG.cap = new(big.Int).Add(two64, big.NewInt(21000)), big.NewInt(0), big.NewInt(0)
+		s.setCode(s.A, new(prog).convert(addrWord(s.inQi), params.MinQuaiConversionAmount, big.NewInt(21000)).etx(s.defaultEtx()).
+			etx(wrapE).convert(addrWord(s.inQi), max256, big.NewInt(21000)).etx(bigG).
+			convert(addrWord(s.inQi), params.MinQuaiConversionAmount, new(big.Int).Add(two64, big.NewInt(21000))).op("stop"))
 		out = append(out, s.c)
 		s2 := newScen([2]int{0, 0}, ptn, "fork boundary: top-level conversion")
 		s2.c.To, s2.c.Value, s2.c.Gas = s2.inQi, params.MinQuaiConversionAmount.String(), 60000
@@ -521,7 +531,10 @@ func genFeePart(r *hlib.Rng) *big.Int {
 
 func (s *scen) genEtx(r *hlib.Rng, bal *big.Int) etxArgs {
 	a := etxArgs{to: s.genDest(r), value: genValue(r, bal), gl: genGasLimit(r), tip: genFeePart(r), cap: genFeePart(r), alSize: big.NewInt(0)}
-	if r.Chance(55) { // a fee that fits comfortably, so that the later branches are reached
+	if r.Chance(50) {
+		a.value = big.NewInt(int64(1 + r.Intn(1000000)))
+	}
+	if r.Chance(60) { // a fee that fits comfortably, so that the later branches are reached
 		a.tip, a.cap = big.NewInt(int64(r.Intn(50))), big.NewInt(int64(r.Intn(50)))
 		if r.Chance(80) {
 			a.gl = big.NewInt(int64(21000 + r.Intn(100000)))
@@ -603,10 +616,14 @@ func (s *scen) genCode(r *hlib.Rng, level int, bal *big.Int) *prog {
 			if r.Chance(30) {
 				v = genValue(r, bal)
 			}
-			g := pickBig(r, big.NewInt(0), big.NewInt(2300), big.NewInt(30000), big.NewInt(int64(40000+r.Intn(200000))), big.NewInt(3000000), two64, max256, new(big.Int).Sub(two64, big.NewInt(1)))
+			g := pickBig(r, big.NewInt(0), big.NewInt(30000), big.NewInt(int64(40000+r.Intn(200000))), big.NewInt(int64(40000+r.Intn(200000))), big.NewInt(3000000), big.NewInt(3000000), two64, max256, max256, new(big.Int).Sub(two64, big.NewInt(1)))
 			p.call(addrWord(contracts[level+1+r.Intn(2-level)]), v, g)
 		case 4:
-			p.call(s.genDest(r), big.NewInt(int64(r.Intn(3))), big.NewInt(100000))
+			d := s.genDest(r)
+			if new(big.Int).And(d, new(big.Int).Sub(pow2(160), big.NewInt(1))).Cmp(addrWord(s.A)) == 0 {
+				d = addrWord(s.fQuai[0]) // no recursion in random programs (one corpus case covers it)
+			}
+			p.call(d, big.NewInt(int64(r.Intn(3))), big.NewInt(100000))
 		case 5:
 			v := big.NewInt(int64(r.Intn(500)))
 			p.call(addrWord([]string{s.funded, s.unfunded}[r.Intn(2)]), v, big.NewInt(int64(r.Intn(40000))))
